@@ -6,7 +6,7 @@ Init == l = 1 /\ fails = {} /\ stats = [n |-> 0, nontriv |-> 0, oos |-> 0]
 F(name, b) == IF b THEN {} ELSE {name}
 Step == /\ l <= Len(Trace)
         /\ LET e == Trace[l]
-               inscope == e.p = "ok" /\ e.native /\ Monotone(e)       \* the statement covers monotone clusters in the script's own direction
+               inscope == e.p = "ok" /\ Monotone(e)       \* the statement covers monotone clusters (any direction)
                bad == IF e.p = "panic" THEN {"Total"}
                       ELSE IF ~inscope THEN {}
                       ELSE IF ~FragmentsAreSegments(e) THEN {"HarnessCuts"}
